@@ -62,6 +62,13 @@ def open_scenarios(case, d):
                 a[:] = 5; out['rplus_after'] = 'ok'
             except Exception as e:
                 out['rplus_after'] = type(e).__name__
+        elif kind == 'meta_mode':
+            # the metadata object's own mode was changed; assigning the handle's mode (again) governs both
+            a = darr.asarray(path, np.arange(int(np.prod(shape)), dtype='int32').reshape(shape), accessmode='r',
+                             metadata={'a': 1})
+            a.metadata.accessmode = 'r+'
+            a.accessmode = 'r'
+            attempts(a, path)
         elif kind == 'nested_rw':
             a = darr.asarray(path, np.arange(int(np.prod(shape)), dtype='int32').reshape(shape), accessmode='r')
             with a.open_array():
